@@ -205,10 +205,17 @@ def check(run):
     for c in rt.tick_contracts():
         rep = run.verify(c, cs)
         triage(run, rep, c.variant)
+    for c in rt.init_contracts():
+        rep = run.verify(c, {})
+        for ob, model, definitive in driver.refuted(run, rep):
+            run.native_runs += 1
+            ok, why, calls = native_tick(0.75, 0.1, 1, [(1.0, "u", [(0.9, "a", True)]), (0.8, "u", None)])
+            run.findings.append(Finding(ob.name, "init", f"{ob.name} refuted ({getattr(ob, 'note', '') or 'constructor stores something else than it is given'}); native history from t0=0.75: {why}", {"language": "python", "inputs": {"t0": 0.75, "max_dt_sec": 0.1, "control_size": 1, "ticks": [[1.0, "u", [[0.9, "a", True]]], [0.8, "u", None]]}, "oracle_verdict": why}, not ok, theory=ob.theory))
     try:
         from checks import cxx_runtime
 
         cxx_runtime.check_c11(run)
+        cxx_runtime.check_constructors(run, "C11")  # the constructors establish what `held` means before the first tick
     except ImportError:
         run.notes.append("C++ side not built yet")
     escalate = any(r.status != "ok" for r in run.reports) or bool(run.undecided)
@@ -223,4 +230,6 @@ def replay_file(payload):
         return ok
     from checks import cxx_runtime
 
+    if payload.get("configuration") and "t1" in (payload.get("inputs") or {}):
+        return cxx_runtime.replay_c10(payload)
     return cxx_runtime.replay_c11(payload)
